@@ -23,7 +23,9 @@ func ceilSec(d time.Duration) time.Duration {
 	return time.Duration(math.Ceil(d.Seconds())) * time.Second
 }
 
-func (w *world) maxTTL(base time.Duration) time.Duration { return ceilSec(time.Duration(1.05 * float64(base))) }
+func (w *world) maxTTL(base time.Duration) time.Duration {
+	return ceilSec(time.Duration(1.05 * float64(base)))
+}
 func (w *world) minTTL(base time.Duration) time.Duration { return time.Duration(0.95 * float64(base)) }
 
 const placeholder = "*"
